@@ -68,7 +68,8 @@ def _payload(case, v):
 async def _run_case(case):
     from pygls.client import JsonRPCClient
 
-    hook_log, err_log = [], []
+    hook_log, err_log, hook_done = [], [], []
+    hook_entered = asyncio.Event()
     futs, cfuts = [], []            # asyncio futures handed to the caller / the underlying futures
 
     class HookError(Exception):
@@ -92,13 +93,20 @@ async def _run_case(case):
             # what the hook sees when it starts: were the requests it could know of settled?
             seen = all(f.done() for f in cfuts) if case.get("api") == "sync" else None
             hook_log.append([server.returncode, seen])
-            kind = case.get("hook", "ok")
-            if kind == "raise":
-                raise HookError("server_exit hook raises")
-            if kind == "slow":
-                await asyncio.sleep(0.2)
-            if kind == "await" and futs:
-                await asyncio.wait(list(futs))       # wait for the in-flight requests to settle
+            hook_entered.set()
+            try:
+                kind = case.get("hook", "ok")
+                if kind == "raise":
+                    raise HookError("server_exit hook raises")
+                if kind == "slow":
+                    await asyncio.sleep(0.1)
+                if kind == "await" and futs:
+                    await asyncio.wait(list(futs))       # wait for the in-flight requests to settle
+                hook_done.append("returned" if kind != "raise" else "raised")
+            except HookError:
+                hook_done.append("raised")
+                raise
+            # (a hook that is cancelled - its task abandoned - does not complete: nothing appended)
 
         def report_server_error(self, error, source):
             err_log.append(type(error).__name__)
@@ -166,13 +174,29 @@ async def _run_case(case):
                         pass
         # wait for the client to notice the exit (bounded); an "early stop" case calls stop() at
         # once instead, while the server may still be alive
-        early = bool(case.get("early_stop"))
+        # stop_at: when the caller calls stop() -
+        #   after  the client has noticed the exit (hook finished, stop flag set)      [default]
+        #   early  at once, the server may still be alive
+        #   dead   as soon as the process is known to be dead (the exit watcher may not have run)
+        #   hook   while the server_exit hook is in flight (entered, not necessarily finished)
+        stop_at = case.get("stop_at") or ("early" if case.get("early_stop") else "after")
+        early = stop_at != "after"
         obs["early"] = early
-        while not early and not client.stopped and time.monotonic() - t0 < CASE_TIMEOUT:
-            await asyncio.sleep(0.002)
+        if stop_at == "after":
+            while not client.stopped and time.monotonic() - t0 < CASE_TIMEOUT:
+                await asyncio.sleep(0.002)
+        elif stop_at == "dead":
+            while (getattr(getattr(client, "_server", None), "returncode", 0) is None
+                   and time.monotonic() - t0 < CASE_TIMEOUT):
+                await asyncio.sleep(0)
+        elif stop_at == "hook":
+            try:
+                await asyncio.wait_for(hook_entered.wait(), CASE_TIMEOUT)
+            except asyncio.TimeoutError:
+                pass
         obs["stopped"] = client.stopped
         obs["t_stopped"] = round(time.monotonic() - t0, 3)
-        for _ in range(3):                     # let the asyncio wrappers of the futures catch up
+        for _ in range(0 if early else 3):     # let the asyncio wrappers of the futures catch up
             await asyncio.sleep(0)
         obs["futs"] = [_fut_obs(f) for f in futs]
         obs["hook"] = list(hook_log)
@@ -185,6 +209,17 @@ async def _run_case(case):
             obs["stop"] = ["timeout"]
         except Exception as e:
             obs["stop"] = ["raised", type(e).__name__]
+        # At the moment stop() returns - before the loop runs anything else - nothing the client
+        # started may still be pending (a program may leave its event loop now), and the hook has
+        # run to completion exactly once.
+        def pending():
+            # (a handler task of a server request whose cancellation has been requested by the exit
+            # watcher is on its way out: it is accounted for by `handlers_running` below)
+            return [t for t in asyncio.all_tasks()
+                    if t is not asyncio.current_task() and not t.done()
+                    and not (getattr(t.get_coro(), "__name__", "") == "slow_handler" and t.cancelling())]
+        obs["tasks"] = ["pending" for t in pending()] if obs["stop"] == ["returned"] else []
+        obs["hook_done"] = list(hook_done)
         if early:
             obs["stopped"] = client.stopped
             for _ in range(3):
@@ -193,13 +228,6 @@ async def _run_case(case):
         obs["futs_after_stop"] = [_fut_obs(f) for f in futs]
         obs["post"] = [_fut_obs(f) for f in post]
         obs["errs"] = len(err_log)
-        # nothing may be left running once stop() has returned
-        def pending():
-            return [t for t in asyncio.all_tasks() if t is not asyncio.current_task() and not t.done()]
-        t1 = time.monotonic()
-        while pending() and time.monotonic() - t1 < 0.5 and obs["stop"] == ["returned"]:
-            await asyncio.sleep(0.005)         # a task that is merely finishing is not a hang
-        obs["tasks"] = ["pending" for t in pending()]
         obs["handlers_running"] = sum(1 for v in hstat.values() if v == "running")
         obs["rc"] = obs["hook_after_stop"][0][0] if obs["hook_after_stop"] else None
         obs["t_total"] = round(time.monotonic() - t0, 3)
@@ -350,7 +378,8 @@ def valid(c):
         return False                  # caller-chosen ids must be distinct (7 and "7" are)
     return (dead and c["exit"] in EXIT_RC and c.get("tail", "none") in TAILS
             and c.get("hook", "ok") in HOOKS and c.get("client", "plain") in ("plain", "lsp")
-            and c.get("api", "async") in ("async", "sync") and c.get("srvreq", 0) in (0, 1, 2))
+            and c.get("api", "async") in ("async", "sync") and c.get("srvreq", 0) in (0, 1, 2)
+            and c.get("stop_at", "after") in ("after", "early", "dead", "hook"))
 
 
 def events(c):
@@ -426,6 +455,7 @@ def canon_impl(o, nf):
         "hook": o["hook_after_stop"] if early else o["hook"], "stopped": o["stopped"],
         "t": [o.get("t_stopped"), o.get("t_total")],
         "hrun": o.get("handlers_running", 0),
+        "hook_done": len(o.get("hook_done", [])),
         "stop": o["stop"] if o["stop"][0] != "raised" else ["raised", o["stop"][1]],
         "errs": o["errs"],
         "futs2": [canon_fut(f) for f in o["futs_after_stop"]],
@@ -491,6 +521,7 @@ class C17(core.Property):
                    "reference_agrees", "conv_expect_sound_bounded", "conv_expect_sound_bounded_handlers",
                    "fail_loop_fixed", "fail_loop_le", "C17", "C17_nonvacuous", "C17_pinned_refuted_handler_task",
                    "C17_handler_task_cancelled",
+                   "stop_returns_iff", "stop_waits_for_hook", "stop_returned_hook_completed",
                    # link to the byte-level read loop of C02 / C15 (Model/Framing.v)
                    "framing_delivers_items", "client_consumes_items", "link_client_framing", "link_reader_run",
                    "link_pinned_cut_body", "framing_cut_body_at_readexactly", "link_nonvacuous",
@@ -502,7 +533,7 @@ class C17(core.Property):
             "by the real JsonRPCClient.start_io (plain or typed BaseLanguageClient) with a conversation of answered, "
             "unanswered, late-answered, undecodably answered and cancelled requests, 0-2 coroutine handlers of server "
             "requests still running at the exit (uuid or caller-chosen int / str "
-            "ids) and notifications, server_exit hook returning / raising / sleeping / awaiting the requests; non-trivial = at least one request outstanding at the exit "
+            "ids) and notifications, server_exit hook returning / raising / sleeping / awaiting the requests, stop() called before the exit / once the process is dead / while the hook is in flight / after it; non-trivial = at least one request outstanding at the exit "
             "or a partial frame written")
     trusted_base = ["Coq 8.16.1 kernel incl. vm_compute (refutation witnesses, Examples)",
                     "extraction with ExtrOcamlBasic only + ocaml/c17_driver.ml + conv_io/conv_n/conv_z",
@@ -609,8 +640,8 @@ class C17(core.Property):
                     c["errhook"] = "raise"
             if rng.random() < 0.15:
                 c["post"] = rng.randint(1, 2)
-            elif rng.random() < 0.25:
-                c["early_stop"] = True
+            elif rng.random() < 0.45:
+                c["stop_at"] = rng.choice(["early", "dead", "hook", "hook"])
             self._decorate(rng, c)
             cases.append(c)
         out = []
@@ -688,10 +719,12 @@ class C17(core.Property):
 
     def model_input(self, c):
         evs = events(c)
-        if c.get("early_stop"):
+        stop_at = c.get("stop_at") or ("early" if c.get("early_stop") else "after")
+        if stop_at == "early":
             evs.append([6])
         flat = " ".join(" ".join(map(str, e)) for e in evs)
-        return f"conv {self.cfg(c)} {len(evs)} {flat} {c.get('post', 0)} {c.get('srvreq', 0)}"
+        return (f"conv {self.cfg(c)} {len(evs)} {flat} {c.get('post', 0)} {c.get('srvreq', 0)} "
+                f"{ {'hook': 1, 'dead': 2}.get(stop_at, 0) }")
 
     def model_output(self, c, toks):
         t = _Toks(toks)
@@ -707,7 +740,8 @@ class C17(core.Property):
                     o["hook"] = [[rc, None] for rc, _ in o["hook"]]
             M[order] = {"futs": o1["futs"], "hook": o1["hook"], "stopped": o1["stopped"], "stop": o2["stop"],
                         "errs": o2["errs"], "futs2": o2["futs"][:nf], "hook2": o2["hook"],
-                        "post": o2["futs"][nf:], "clean": True, "hrun": o2["hrun"], "_spec_ok": ok,
+                        "post": o2["futs"][nf:], "clean": True, "hrun": o2["hrun"],
+                        "hook_done": 1 if o2["stop"] == ["returned"] else 0, "_spec_ok": ok,
                         "_htasks": o2["htasks"]}
         return {"M": M, "S": {"exp": exps, "hooks": 1, "stopped": True, "stop": ["returned"]},
                 "guard": guard, "klass": None}
@@ -722,6 +756,7 @@ class C17(core.Property):
                 and all(fut_ok(e, f) for e, f in zip(exps[:nf], impl["futs"]))     # at once, before stop()
                 and all(fut_ok(e, f) for e, f in zip(exps, alls))                  # and still after it
                 and len(impl["hook"]) == 1 and len(impl["hook2"]) == 1
+                and impl["hook_done"] == 1          # entered once AND run to completion when stop() returns
                 and impl["stopped"] is True and impl["stop"] == ["returned"] and impl["clean"])
 
     # not property-level: how often report_server_error was called, and what happens to requests
@@ -775,7 +810,7 @@ class C17(core.Property):
                 yield d
         # (the hook kind is never shrunk away: a deadlock in an awaiting hook would degrade to a
         # mere difference in what a trivial hook sees)
-        for key in ("pre", "post", "errhook", "early_stop", "client", "api", "srvreq"):
+        for key in ("pre", "post", "errhook", "early_stop", "stop_at", "client", "api", "srvreq"):
             if c.get(key):
                 d = dict(c); d.pop(key)
                 if valid(d):
@@ -877,7 +912,7 @@ class C17(core.Property):
                         "api:" + c.get("api", "async"), "client:" + c.get("client", "plain"),
                         "srvreq:%d" % c.get("srvreq", 0),
                         "ids:" + ("chosen" if any(i is not None for i in c.get("ids") or []) else "uuid"),
-                        "early_stop:%d" % bool(c.get("early_stop"))):
+                        "stop_at:" + (c.get("stop_at") or ("early" if c.get("early_stop") else "after"))):
                 d[key] = d.get(key, 0) + 1
             for m in c["msgs"]:
                 d["msg:" + m[0]] = d.get("msg:" + m[0], 0) + 1
